@@ -74,7 +74,7 @@ PROPS = {
         explanation='Lean: fail_closed, not_served_before_init, empty_issuer_never_served, heals (any finite fault script, bound on the instant), served_after_init, latest_wins, round_first_healthy; facts: initializeMetadata loops, constants; tie: status of every request, document in force, exact virtual instants of every discovery attempt incl. the hourly refresh; oracle: nothing but 503/408 before a healthy answer completed, serving hours after recovery',
     ),
     'C05': dict(
-        family='sched', driver_family='handler', fields=['class', 'code', 'calls', 'loc', 'jar', 'hdrs', 'down'], facts=['poolPutCount', 'poolPutOnlyBeforeNilReturn', 'cacheLockedMethods', 'cacheUnlockedMethods'],
+        family='sched', driver_family='handler', fields=['class', 'code', 'calls', 'loc', 'jar', 'hdrs', 'down'], facts=['poolPutCount', 'poolPutOnlyBeforeNilReturn', 'cacheLockedMethods', 'cacheUnlockedMethods', 'nestedLockCalls', 'housekeepingCalls'],
         race=True, crash_is_violation=True, timeout=1500,
         trusted=['Go memory model, sync.Mutex, sync.Pool, the scheduler: data races, deadlocks and runtime aborts are outside the Lean model; the -race stress run of the thorough tier is supporting evidence only',
                  'interleavings are explored at scheduling-point granularity (ResponseWriter methods, provider calls, downstream entry); code between two points runs alone'],
